@@ -57,16 +57,21 @@ package utils
 // the observers of the parsed script are the stored fields
 //@ func (*pkScriptInfo).Maturity
 //@   props C16
+//@   requires s != nil
 //@   ensures result == s.maturity
 //@ func (*pkScriptInfo).AddressClass
 //@   props C16
+//@   requires s != nil
 //@   ensures result == s.addressClass
 //@ func (*pkScriptInfo).IsStaking
 //@   props C16
+//@   requires s != nil
 //@   ensures result == (s.scriptClass == txscript.StakingScriptHashTy)
 //@ func (*pkScriptInfo).IsBinding
 //@   props C16
+//@   requires s != nil
 //@   ensures result == (s.scriptClass == txscript.BindingScriptHashTy)
 //@ func (*pkScriptInfo).ScriptClass
 //@   props C16
+//@   requires s != nil
 //@   ensures result == s.scriptClass
